@@ -19,8 +19,8 @@ var run *ev.Run
 
 func TestMain(m *testing.M) {
 	run = ev.Start("C12", "exploration",
-		"(a) every string over {a,b,:,/,.,@} up to length 6 (quick) / 7 (thorough) is parsed [exhaustive], plus rapid strings up to length 40 over a "+
-			"wider alphabet; each accepted label with a name or without a kind must re-parse from its printed form to the identical label, also after "+
+		"(a) every string over {a,b,:,/,.,@} up to length 6 (quick) / 7 (thorough) and every sequence of up to 5 / 6 tokens from {a, //, :, /, @v1, @v0, @v2, @, ., h/p} is parsed [exhaustive], plus rapid strings up to length 40 over a "+
+			"wider alphabet and strings assembled from label fragments (kinds, major-version suffixes); each accepted label with a name or without a kind must re-parse from its printed form to the identical label, also after "+
 			"RelativeTo(//, //a, //a/b); printed forms are grouped and each group must hold one distinct label. (b) every (package, path) with path over "+
 			"{a,.,/} up to length 7/8 [exhaustive] and rapid paths ('..', absolute, repeated separators, odd bytes): sourceLabel/repoSourcePath and an "+
 			"end-to-end target(sources=,generates=) load must reject or resolve inside the root. Non-trivial = accepted label with >=2 non-empty fields, "+
